@@ -204,6 +204,7 @@ type scope struct {
 
 func (b *Bounds) newScope(fn *ssa.Function, prefix string, parent *scope, call ssa.CallInstruction) *scope {
 	s := &scope{b: b, fn: fn, prefix: prefix, lc: b.p.newLin(), parent: parent, call: call}
+	s.lc.wrapOK = false
 	if parent != nil {
 		s.depth = parent.depth + 1
 	}
@@ -637,6 +638,37 @@ func (iv *ival) String() string {
 
 func (s *scope) binopFacts(pr *proof, a Lin, x *ssa.BinOp) {
 	if !isIntType(x.Type()) {
+		return
+	}
+	if bits, signed := intWidth(x.Type(), s.b.word); !signed && (x.Op == token.ADD || x.Op == token.SUB || x.Op == token.MUL) {
+		// exact unless it wraps
+		s.lc.wrapOK = true
+		xl, yl := s.lin(x.X, pr), s.lin(x.Y, pr)
+		s.lc.wrapOK = false
+		var e Lin
+		okLin := true
+		switch x.Op {
+		case token.ADD:
+			e = xl.Add(yl)
+		case token.SUB:
+			e = xl.Sub(yl)
+		case token.MUL:
+			if c, ok := xl.IsConst(); ok {
+				e = yl.Scale(c)
+			} else if c, ok := yl.IsConst(); ok {
+				e = xl.Scale(c)
+			} else {
+				okLin = false
+			}
+		}
+		if okLin && bits <= 62 {
+			max := (int64(1) << uint(bits)) - 1
+			pr.addSplit("uwrap:"+fmt.Sprintf("%s%p", s.prefix, x), [][]Cons{
+				append(eq(a, e), geC(e, 0), leC(e, max)),
+				{leC(e, -1)},
+				{geC(e, max+1)},
+			})
+		}
 		return
 	}
 	switch x.Op {
